@@ -1,13 +1,45 @@
-import BreezyVerif.Model.C12
+import BreezyVerif.Props.C12
 import BreezyVerif.Generated.C12
-/-! C12 — T1 tie: the variant of the `basis_path is None` branch of `_alter_files`
-found in the current source is one of the two the theorems of Props/C12 cover
-(`pinnedFlags` with `revert_keeps_user_content_partial` + witness, `fixedFlags`
-with `revert_keeps_user_content`). -/
+/-! C12 — T1 tie.  `Generated/C12.lean` holds, translated from the AST of
+`breezy/transform.py:_alter_files` on every run, the `keep_content` computation
+(`sourceKeepContent`), the dispatch on the working file (`sourceRevertAction`) and the
+variant flag of the `basis_path is None` branch (`sourceFlags`).  Here they are proved
+equal, for all inputs, to the model the theorems of Props/C12 are about, and the property is
+restated for the source's own functions — a source change that alters the decision (e.g. a
+return to the variant that deletes content absent from the basis) makes this file fail. -/
 namespace BreezyVerif.C12
 
-theorem source_flags_covered :
-    sourceFlags = { keepWhenNoBasis := false } ∨ sourceFlags = { keepWhenNoBasis := true } := by
-  decide
+/-- the `basis_path is None` branch found in the source is the keeping variant -/
+theorem source_flags_fixed : sourceFlags = fixedFlags := by decide
+
+/-- `keep_content` as computed by the source = the model's `keepContent`, for every input -/
+theorem source_keep_content_eq (i : RevertIn) : sourceKeepContent i = keepContent fixedFlags i := by
+  obtain ⟨cc, wk, bk, tk, tv, mm, bp, bi⟩ := i
+  cases wk <;> cases bk <;> cases tk <;> cases mm <;> cases bp <;> cases bi <;>
+    first | rfl | (rename_i k; cases k <;> first | rfl | (rename_i k2; cases k2 <;> rfl))
+
+/-- the dispatch of the source (nothing / delete / backup-and-replace / keep in place) = the
+model's `revertAction`, for every input -/
+theorem source_revert_action_eq (i : RevertIn) : sourceRevertAction i = revertAction fixedFlags i := by
+  have hk := source_keep_content_eq i
+  obtain ⟨cc, wk, bk, tk, tv, mm, bp, bi⟩ := i
+  simp only [sourceRevertAction, revertAction, hk]
+  cases cc <;> cases wk <;> cases tk <;> simp <;> split <;> simp_all
+
+/-- **revert keeps user content, for the source's own decision**: a user-edited working file is
+never handed to `tt.delete_contents` by a revert with backups -/
+theorem revert_keeps_user_content_source (i : RevertIn) (hu : userEdited i = true) (hb : i.backups = true) :
+    sourceRevertAction i ≠ .deleteContents := by
+  rw [source_revert_action_eq]
+  have h := revert_keeps_user_content i hu hb
+  intro ha
+  simp [revertFate, ha] at h
+
+/-- the directory-level statement for the flags found in the source -/
+theorem revert_dir_keeps_user_bytes_source {β : Type} (i : RevertIn) (d : Listing β) (name : String) (c new : β)
+    (hu : userEdited i = true) (hb : i.backups = true) (h : (name, c) ∈ d) :
+    ∃ d', revertDir sourceFlags i d name new = some d' ∧ c ∈ contents d' ∧ (∀ e ∈ d, e.1 ≠ name → e ∈ d') := by
+  rw [source_flags_fixed]
+  exact revert_dir_keeps_user_bytes i d name c new hu hb h
 
 end BreezyVerif.C12
